@@ -187,6 +187,9 @@ func (br *BlockReader) SkipNext() (*BlockMetadata, error) {
 
 	cidSize, c, err := cid.CidFromReader(io.LimitReader(br.r, int64(sectionSize)))
 	if err != nil {
+		if err == io.EOF {
+			err = io.ErrUnexpectedEOF // section length was read; the CID must follow
+		}
 		return nil, err
 	}
 
